@@ -29,8 +29,9 @@ CONSTANTS MaxSteps
 Doc == JsonDeserialize(IOEnv.CASES)
 Case(c) == Doc.cases[c]
 
-VARIABLES c, stack, envs, heap, out, steps, status, nser
-vars == <<c, stack, envs, heap, out, steps, status, nser>>
+VARIABLES c, stack, envs, heap, out, steps, status, nser,
+          sinks        \* C10: pairs <<source statement, sink statement>> observed at the designated sink argument
+vars == <<c, stack, envs, heap, out, steps, status, nser, sinks>>
 
 Rows == Case(c).rows
 IsMarker(r) == r.op \in {"block_start", "block_end"}
@@ -39,16 +40,18 @@ RowOf(id) == CHOOSE r \in ToSet(Rows) : r.id = id /\ ~IsMarker(r)
 HasRow(id) == \E r \in ToSet(Rows) : r.id = id /\ ~IsMarker(r)
 
 (* ---------------- values ---------------- *)
-VInt(i)  == [t |-> "int", i |-> i]
-VStr(s)  == [t |-> "str", s |-> s]
-VBool(b) == [t |-> "bool", b |-> b]
-VNone    == [t |-> "none"]
-VRef(i)  == [t |-> "ref", i |-> i]
-VFun(m, e) == [t |-> "fun", i |-> m, env |-> e]
-VCls(k)  == [t |-> "cls", i |-> k]
-VBound(m, e, s) == [t |-> "bound", i |-> m, env |-> e, self |-> s]
-VBuiltin(s) == [t |-> "builtin", s |-> s]
-VUndef   == [t |-> "undef"]
+(* every value carries tg: the set of source statements it depends on (explicit flows only; used by C10) *)
+VInt(i)  == [t |-> "int", i |-> i, tg |-> {}]
+VStr(s)  == [t |-> "str", s |-> s, tg |-> {}]
+VBool(b) == [t |-> "bool", b |-> b, tg |-> {}]
+VNone    == [t |-> "none", tg |-> {}]
+VRef(i)  == [t |-> "ref", i |-> i, tg |-> {}]
+VFun(m, e) == [t |-> "fun", i |-> m, env |-> e, tg |-> {}]
+VCls(k)  == [t |-> "cls", i |-> k, tg |-> {}]
+VBound(m, e, s) == [t |-> "bound", i |-> m, env |-> e, self |-> s, tg |-> {}]
+VBuiltin(s) == [t |-> "builtin", s |-> s, tg |-> {}]
+VUndef   == [t |-> "undef", tg |-> {}]
+AddTags(v, T) == [v EXCEPT !.tg = @ \cup T]
 
 Abs(x) == IF x < 0 THEN 0 - x ELSE x
 Limit == 1073741824          \* TLC integers are 32-bit: cases that leave this range are skipped, not judged
@@ -130,10 +133,11 @@ BindArgs(m, pos, named) ==
   LET ps == Params(m) IN
   [name \in {ps[j].name : j \in 1..Len(ps)} |->
      LET j == CHOOSE k \in 1..Len(ps) : ps[k].name = name IN
-     IF j <= Len(pos) THEN Val(pos[j])
-     ELSE IF HasNamed(named, name) THEN NamedVal(named, name)
-     ELSE IF ps[j].default_tok.k # "empty" THEN Val(ps[j].default_tok)
-     ELSE VUndef]
+     LET v == IF j <= Len(pos) THEN Val(pos[j])
+              ELSE IF HasNamed(named, name) THEN NamedVal(named, name)
+              ELSE IF ps[j].default_tok.k # "empty" THEN Val(ps[j].default_tok)
+              ELSE VUndef
+     IN IF ps[j].id \in ToSet(Case(c).param_sources) /\ v.t # "undef" THEN AddTags(v, {ps[j].id}) ELSE v]
 
 NewAct(m, bound, lexser, target, self, ser) ==
   [m |-> m, kont |-> <<Frame(RowOf(m).body, "plain")>>, lex |-> lexser, target |-> target, self |-> self, ser |-> ser]
@@ -142,21 +146,21 @@ EnvFor(bound, lexser, self) ==
 
 (* ---------------- the transition relation ---------------- *)
 Init == /\ c \in 1..Len(Doc.cases)
-        /\ heap = << >> /\ out = << >> /\ steps = 0 /\ status = "run" /\ nser = 1
+        /\ heap = << >> /\ out = << >> /\ steps = 0 /\ status = "run" /\ nser = 1 /\ sinks = {}
         /\ envs = [s \in {0} |-> ("lex__" :> VInt(0)) @@ [n \in {} |-> VNone]]
         /\ stack = << >>
 
-Fail(msg) == /\ status' = "stuck:" \o msg /\ UNCHANGED <<c, stack, envs, heap, out, nser>> /\ steps' = steps + 1
+Fail(msg) == /\ status' = "stuck:" \o msg /\ UNCHANGED <<c, stack, envs, heap, out, nser, sinks>> /\ steps' = steps + 1
 
 Go(st2, es2, hp2, out2) == /\ stack' = st2 /\ envs' = es2 /\ heap' = hp2 /\ out' = out2
-                           /\ steps' = steps + 1 /\ UNCHANGED <<c, status, nser>>
+                           /\ steps' = steps + 1 /\ UNCHANGED <<c, status, nser, sinks>>
 GoK(k2, es2, hp2, out2) == Go(WithKont(k2), es2, hp2, out2)
 Next1(es2) == GoK(AdvK(Kont), es2, heap, out)
 
 (* unit start: bind top-level methods/classes/builtins in the unit scope, run class static initialisers of
    top-level classes lazily (at first start), then run %unit_init *)
 TopDecls == SelectSeq(Rows, LAMBDA r : r.parent = 0 /\ ~IsMarker(r))
-Builtins == {"print", "range", "len", "out"}
+Builtins == {"print", "range", "len", "out", "source", "sink", "source2", "sink2"}
 UnitScope ==
   \* every method is callable by its name (static methods of Java classes included); top-level classes by theirs
   LET named == {r \in ToSet(TopDecls) : r.op = "class_decl"}
@@ -188,7 +192,7 @@ Start ==
         /\ envs' = [s \in 0..Len(si) |-> IF s = 0 THEN scope
                                         ELSE ("lex__" :> VInt(0)) @@ ("%class" :> acts[Len(acts0) + s].self) @@ ("%this" :> acts[Len(acts0) + s].self)]
         /\ stack' = acts /\ nser' = Len(si) + 1
-        /\ steps' = 1 /\ UNCHANGED <<c, out, status>>
+        /\ steps' = 1 /\ UNCHANGED <<c, out, status, sinks>>
 
 ClassRef(clsid) == LET cs == TopClasses IN
                    IF \E k \in 1..Len(cs) : cs[k].id = clsid THEN VRef(CHOOSE k \in 1..Len(cs) : cs[k].id = clsid) ELSE VNone
@@ -196,7 +200,7 @@ ClassRef(clsid) == LET cs == TopClasses IN
 (* return: pop the activation, write the target of the calling row *)
 DoReturn(v) ==
   IF Len(stack) = 1
-  THEN /\ stack' = << >> /\ status' = "done" /\ steps' = steps + 1 /\ UNCHANGED <<c, envs, heap, out, nser>>
+  THEN /\ stack' = << >> /\ status' = "done" /\ steps' = steps + 1 /\ UNCHANGED <<c, envs, heap, out, nser, sinks>>
   ELSE LET caller == stack[Len(stack) - 1]
            st2 == SubSeq(stack, 1, Len(stack) - 1)
            es2 == IF Act.target = "" THEN envs ELSE SetVar(envs, caller.ser, Act.target, v)
@@ -234,12 +238,14 @@ UnOp(op, a) ==
 Assign ==
   /\ Cur.op = "assign_stmt"
   /\ LET a == Val(Cur.operand_tok)
-         v == IF Cur.operator = "" THEN a
-              ELSE IF Cur.operand2_tok.k = "empty" THEN UnOp(Cur.operator, a)
-              ELSE BinOp(Cur.operator, a, Val(Cur.operand2_tok))
+         v0 == IF Cur.operator = "" THEN a
+               ELSE IF Cur.operand2_tok.k = "empty" THEN UnOp(Cur.operator, a)
+               ELSE BinOp(Cur.operator, a, Val(Cur.operand2_tok))
+         v == IF v0.t \in {"undef", "overflow"} THEN v0
+              ELSE AddTags(v0, a.tg \cup (IF Cur.operand2_tok.k = "empty" THEN {} ELSE Val(Cur.operand2_tok).tg))
      IN IF v.t = "undef" THEN Fail("assign_" \o ToString(Cur.id))
         ELSE IF v.t = "overflow" \/ (v.t = "int" /\ Abs(v.i) >= Limit)
-        THEN /\ status' = "skip:overflow" /\ steps' = steps + 1 /\ UNCHANGED <<c, stack, envs, heap, out, nser>>
+        THEN /\ status' = "skip:overflow" /\ steps' = steps + 1 /\ UNCHANGED <<c, stack, envs, heap, out, nser, sinks>>
         ELSE Next1(SetVar(envs, Act.ser, Cur.target, v))
 
 Decl == /\ Cur.op \in {"variable_decl", "global_stmt", "nonlocal_stmt", "pass_stmt", "parameter_decl", "import_stmt", "from_import_stmt"}
@@ -302,7 +308,7 @@ Enter(m, lexser, bound, target, self) ==
       callerAdv == WithKont(AdvK(Kont))
   IN /\ stack' = Append(callerAdv, NewAct(m, bound, lexser, target, self, ser))
      /\ envs' = (ser :> EnvFor(bound, lexser, self)) @@ envs
-     /\ nser' = nser + 1 /\ steps' = steps + 1 /\ UNCHANGED <<c, heap, out, status>>
+     /\ nser' = nser + 1 /\ steps' = steps + 1 /\ UNCHANGED <<c, heap, out, status, sinks>>
 
 CallValue(f, pos, named, target) ==
   CASE f.t = "fun" -> Enter(f.i, f.env, BindArgs(f.i, pos, named), target, VNone)
@@ -316,7 +322,7 @@ CallValue(f, pos, named, target) ==
             ELSE /\ heap' = hp2
                  /\ stack' = Append(WithKont(AdvK(Kont)), NewAct(ctor, << >>, 0, target, self, nser))
                  /\ envs' = (nser :> EnvFor(BindArgs(ctor, pos, named), 0, self)) @@ envs
-                 /\ nser' = nser + 1 /\ steps' = steps + 1 /\ UNCHANGED <<c, out, status>>
+                 /\ nser' = nser + 1 /\ steps' = steps + 1 /\ UNCHANGED <<c, out, status, sinks>>
     [] f.t = "builtin" ->
          CASE f.s \in {"print", "out"} -> GoK(AdvK(Kont), IF target = "" THEN envs ELSE SetVar(envs, Act.ser, target, VNone), heap,
                                    Append(out, [j \in 1..Len(pos) |-> Val(pos[j])]))
@@ -333,11 +339,23 @@ CallValue(f, pos, named, target) ==
                     n  == IF hi > lo THEN hi - lo ELSE 0
                     hp2 == Append(heap, [Obj("array", 0) EXCEPT !.elems = [j \in 1..n |-> VInt(lo + j - 1)]])
                 IN GoK(AdvK(Kont), SetVar(envs, Act.ser, target, VRef(Len(hp2))), hp2, out)
+           \* C10: a configured source call yields a value tagged with the call statement; a configured sink call records the
+           \* tags that reach its designated argument (argument 0)
+           [] f.s \in {"source", "source2"} ->
+                GoK(AdvK(Kont), SetVar(envs, Act.ser, target, AddTags(VStr("data"), {Cur.id})), heap, out)
+           [] f.s \in {"sink", "sink2"} ->
+                /\ stack' = WithKont(AdvK(Kont)) /\ heap' = heap /\ out' = out /\ steps' = steps + 1
+                /\ envs' = IF target = "" THEN envs ELSE SetVar(envs, Act.ser, target, VNone)
+                /\ sinks' = sinks \cup (IF Len(pos) = 0 THEN {} ELSE {<<s, Cur.id>> : s \in Val(pos[1]).tg})
+                /\ UNCHANGED <<c, status, nser>>
            [] OTHER -> Fail("builtin_" \o f.s)
     [] OTHER -> Fail("call_of_non_callable_" \o ToString(Cur.id))
 
+(* a call to a name that is bound nowhere is a call to external code: no effect here, result None *)
 Call == /\ Cur.op = "call_stmt"
-        /\ CallValue(Lookup(Cur.name), Cur.pos_toks, Cur.named_toks, Cur.target)
+        /\ IF Lookup(Cur.name).t = "undef" /\ Case(c).check = "taint"
+           THEN GoK(AdvK(Kont), IF Cur.target = "" THEN envs ELSE SetVar(envs, Act.ser, Cur.target, VNone), heap, out)
+           ELSE CallValue(Lookup(Cur.name), Cur.pos_toks, Cur.named_toks, Cur.target)
 
 (* receiver.field(...): instance fields first, then the methods of the class (bound to the receiver) *)
 FieldOf(obj, name) ==
@@ -435,12 +453,15 @@ Plain(v) == CASE v.t = "int" -> [t |-> "int", i |-> v.i]
               [] v.t = "none" -> [t |-> "none"]
               [] OTHER -> [t |-> v.t]
 OutPlain == [j \in 1..Len(out) |-> [k \in 1..Len(out[j]) |-> Plain(out[j][k])]]
-Verdict == IF status = "done" THEN (IF OutPlain = Case(c).expected THEN "" ELSE "output_differs")
+Missed == sinks \ {<<Case(c).flows[j][1], Case(c).flows[j][2]>> : j \in 1..Len(Case(c).flows)}
+Verdict == IF status = "done" /\ Case(c).check = "taint" THEN (IF Missed = {} THEN "" ELSE "flow_missed")
+           ELSE IF status = "done" THEN (IF OutPlain = Case(c).expected THEN "" ELSE "output_differs")
            ELSE IF status = "run" /\ steps >= MaxSteps THEN "diverges"
            ELSE IF status = "skip:overflow" THEN "skipped_overflow"
            ELSE IF status # "run" THEN status ELSE ""
 Finished == status # "run" \/ steps >= MaxSteps
 Report == Finished =>
-            PrintT("@@" \o ToJson([case |-> Case(c).name, clause |-> Verdict, got |-> IF Verdict = "" THEN << >> ELSE OutPlain, steps |-> steps]))
+            PrintT("@@" \o ToJson([case |-> Case(c).name, clause |-> Verdict, got |-> IF Verdict = "" THEN << >> ELSE OutPlain, steps |-> steps,
+                                   observed |-> sinks, missed |-> IF Case(c).check = "taint" /\ status = "done" THEN Missed ELSE {}]))
 ReportConstraint == Report
 =============================================================================
